@@ -586,6 +586,19 @@ func helpTextCase(c *Ctx, d *hDecl) {
 		c.Violation("C17", key, cs(), strings.Join(want, " ⏎ "), strings.Join(got, " ⏎ "))
 		return
 	}
+	// asking again changes nothing: the same help on the second and third request of the same instance
+	if d.Depth == 0 {
+		for k := 2; k <= 3; k++ {
+			os.Setenv("VQ_H1", hEnvValue(d))
+			o2 := runIsolated(func() error { return app.Run(argv) })
+			os.Unsetenv("VQ_H1")
+			c.Count("repeated_help_requests", 1)
+			if o2.Panicked || strings.Join(hNorm(o2.Stderr), "\n") != strings.Join(hNorm(o.Stderr), "\n") {
+				c.Violation("C17", key+fmt.Sprintf(" (help request %d on the same instance)", k), cs(), "the same help as the first time: "+strings.Join(hNorm(o.Stderr), " ⏎ "), fmt.Sprintf("panicked=%v ", o2.Panicked)+strings.Join(hNorm(o2.Stderr), " ⏎ "))
+				return
+			}
+		}
+	}
 	for _, cm := range d.Cmds {
 		if cm.Hide {
 			for _, al := range strings.Fields(cm.Names) {
